@@ -28,7 +28,7 @@ def tie(ctx):
 
 
 def gen(rng):
-    s = netgen.gen_heat_loop(rng, with_hex=True)
+    s = netgen.gen_heat_loop(rng, with_hex=True, recirc=bool(rng.random() < 0.3))
     feeds = [e["t_flow_k"] for t in ("circ_pumps_p", "circ_pumps_m") for e in s[t]]
     for j in s["junctions"]:
         j["tfluid_k"] = feeds[0]
